@@ -227,6 +227,12 @@ def run_case(case):
             if sel is not None:
                 skw["atom_indices"] = sel
             got = md.shrake_rupley(t, mode=case["mode"], **skw)
+            # get_mapping=True: the same areas plus, per atom, the column its area is counted in (its own index / its residue's)
+            pair = md.shrake_rupley(t, mode=case["mode"], get_mapping=True, **skw)
+            want_map = np.arange(n) if case["mode"] == "atom" else resmap
+            if not (isinstance(pair, tuple) and len(pair) == 2) or not np.array_equal(np.asarray(pair[0]), got) or \
+                    np.asarray(pair[1]).shape != (n,) or not np.array_equal(np.asarray(pair[1]), want_map):
+                viol.append(("get_mapping", "mode %s: get_mapping=True must return (the same areas, atom -> column mapping %s...)" % (case["mode"], want_map[:6])))
             if case["mode"] == "atom":
                 exp = full.copy()
                 if sel is not None:
